@@ -108,7 +108,17 @@ def run_fuzz_property(prop, spec, tier, seed):
         except build.BuildError as e:
             print(f"BUILD-ERROR {prop}: {e}", file=sys.stderr)
             return None
-        running.append((pr, binary, subprocess.Popen([binary] + [str(a) for a in pr.get("args", [])], stdout=subprocess.PIPE, stderr=subprocess.STDOUT, env=fuzz.base_env(known_sigs))))
+        args = pr.get("thorough_args" if tier == "thorough" and "thorough_args" in pr else "args", [])
+        art = os.path.join(build.BUILD, "artifacts", prop)
+        os.makedirs(art, exist_ok=True)
+        args = [str(a).replace("{seed}", str(seed)).replace("{verif}", VERIF).replace("{art}", art) for a in args]
+        pr = dict(pr, args=args)
+        cmd = [binary] + args
+        if pr.get("valgrind"):
+            # uninitialised reads / invalid accesses as seen by memcheck on a sanitizer-free build; the first error ends the
+            # process, which leaves minidrv's crash-current-<pid> file (the input being executed) behind as the reproducer
+            cmd = ["valgrind", "-q", "--error-exitcode=1", "--exit-on-first-error=yes", "--leak-check=no"] + cmd
+        running.append((pr, binary, subprocess.Popen(cmd, cwd=VERIF, stdout=subprocess.PIPE, stderr=subprocess.STDOUT, env=fuzz.base_env(known_sigs))))
     for pr, binary, pp in running:
         out = pp.communicate()[0].decode(errors="replace")
         line = out.strip().splitlines()[-1] if out.strip() else ""
@@ -118,13 +128,25 @@ def run_fuzz_property(prop, spec, tier, seed):
             info = {"raw": out[-400:]}
         prog_results.append({"program": pr["name"], "args": pr.get("args", []), "exit": pp.returncode, "result": info})
         total["evals"] += 1
+        if pr.get("valgrind"):
+            m = __import__("re").search(r"Done (\d+) runs", out)
+            total["evals"] += int(m.group(1)) if m else 0
+            info = {"valgrind_exit": pp.returncode, "tail": out[-600:] if pp.returncode else ""}
+            prog_results[-1]["result"] = info
         if pp.returncode == 1:
             art = os.path.join(build.BUILD, "artifacts", prop)
             os.makedirs(art, exist_ok=True)
-            path = os.path.join(art, f"{pr['name']}__" + "_".join(str(a) for a in pr.get("args", [])) + ".txt")
-            with open(path, "w") as f:
-                f.write(" ".join([binary] + [str(a) for a in pr.get("args", [])]) + "\n" + out[-2000:])
-            all_findings.append({"kind": "violation", "signature": f"{prop}:{pr['name']}", "reason": str(info)[:400], "case": "", "path": path, "target": pr["name"], "reproduced": 1})
+            cur = sorted(__import__("glob").glob(os.path.join(art, "vg-crash-current-*")))
+            if pr.get("valgrind") and cur:
+                path = os.path.join(art, f"{pr['name']}-vg__raw-valgrind")
+                os.replace(cur[-1], path)
+                with open(path + ".log", "w") as f:
+                    f.write(out[-6000:])
+            else:
+                path = os.path.join(art, f"{pr['name']}__" + "_".join(os.path.basename(str(a)) for a in pr.get("args", []))[:80] + ".txt")
+                with open(path, "w") as f:
+                    f.write(" ".join([binary] + [str(a) for a in pr.get("args", [])]) + "\n" + out[-2000:])
+            all_findings.append({"kind": "violation", "signature": (f"{prop}:valgrind-memcheck" if pr.get("valgrind") else f"{prop}:{pr['name']}"), "reason": (out[-700:] if pr.get("valgrind") else str(info)[:400]), "case": "", "path": path, "target": pr["name"], "reproduced": 1})
         elif pp.returncode != 0:
             harness_errors.append(f"program {pr['name']} exited {pp.returncode}: {out[-300:]}")
     wall = time.time() - t0
